@@ -185,6 +185,10 @@ def constructor_pairs() -> list[tuple[str, str | None, str]]:
         c = Command.get_schedule_fragment(ctl, "01", frag, 3 if frag > 1 else 0)
         body = "68816DCFCB0980301045D1994C3E"
         out.append((str(c), f"RP --- {ctl} {GWY} --:------ 0404 {7 + len(body) // 2:03d} 012000{0x08:02X}{len(body) // 2:02X}{frag:02X}03{body}", "ctor"))
+    for zone, marker in (("00", "20"), ("HW", "23")):  # zone 00 and the hot-water schedule: same index byte, other marker
+        c = Command.get_schedule_fragment(ctl, zone, 1, 0)
+        body = "68816DCFCB0980301045D1994C3E"
+        out.append((str(c), f"RP --- {ctl} {GWY} --:------ 0404 {7 + len(body) // 2:03d} 00{marker}00{0x08:02X}{len(body) // 2:02X}0101{body}", "ctor"))
     out.append((str(Command.get_system_mode(ctl)), f"RP --- {ctl} {GWY} --:------ 2E04 008 00FFFFFFFFFFFF00", "ctor"))
     out.append((str(Command.get_dhw_temp(ctl)), f"RP --- {ctl} {GWY} --:------ 1260 003 000B6F", "ctor"))
     out.append((str(Command.get_tpi_params(ctl)), f"RP --- {ctl} {GWY} --:------ 1100 008 FC180400007FFF01", "ctor"))
@@ -225,6 +229,8 @@ def near_misses(frame: str, role: str, code: str, rng, req_verb: str = "RQ", req
             continue
         cur = payload[a:b]
         cands = {"00", "01", "0B", "0F", f"{(int(cur[-2:], 16) + 1) % 256:02X}", "3F", "7F", "FA", "FC"}
+        if code == "0404" and (a, b) == (0, 4):
+            cands |= {"20", "23"}  # the zone / hot-water marker: zone 00 and the DHW schedule share index byte 00
         for alt in sorted(cands):
             new = cur[:-2] + alt
             newp = payload[:a] + new + payload[b:]
